@@ -1,21 +1,70 @@
-"""Assumed models of externals (the trusted base, listed in every evidence file)."""
+"""Assumed models of externals and of calls through function values (the trusted base; every
+entry of TRUSTED is copied into the evidence files)."""
+import ast
 import z3
-from pyvc import smt
-from pyvc.smt import Val
-from pyvc.symexec import SV, fresh, R
+from pyvc import smt, calls
+from pyvc.smt import Val, Seq, Len, At, Contains
+from pyvc.symexec import SV, Exc, Unsupported, fresh, R, I
 from pyvc.types import parse as T
 
 TRUSTED = []
+
+SPF = z3.Function("ServerPriority", Val, smt.I, smt.I, Val)       # server_priority_function(srv, ind)
+BaulkP = z3.Function("BaulkProbability", Val, smt.I, Val)         # baulking function(population)
 
 
 def ext_random(ex, st, pos, kw, node):
     r = fresh("rnd", R)
     st.assume(z3.And(r >= 0, r < 1))
-    ex.rnd_draws.append(r) if hasattr(ex, "rnd_draws") else None
     return [(st, SV("val", Val.realv(r), T("num")))]
+
+
+def fnvalue(ex, st, fv, pos, kw, node):
+    f = node.func
+    attr = f.attr if isinstance(f, ast.Attribute) else None
+    if attr == "service_discipline":
+        out = []
+        for name in ("FIFO", "LIFO", "SIRO", None):
+            s2 = st.copy()
+            if name is not None:
+                cond = fv.t == Val.fnv(ex.S.fn_id(name))
+            else:
+                cond = z3.And([fv.t != Val.fnv(ex.S.fn_id(n)) for n in ("FIFO", "LIFO", "SIRO")])
+            if not ex.noprune and not ex.feasible(s2, cond):
+                continue
+            s2.assume(cond)
+            if name is not None:
+                out.extend(calls.call_function(ex, s2, ex.P.functions[name], None, pos, kw, node))
+            else:
+                # a user-supplied discipline: assumed to return a member of the list it is given
+                ex.assumed_used.add("custom service_discipline returns a member of its argument and writes nothing")
+                sq = ex.seq_of(pos[0], s2, node)
+                r = fresh("chosen", Val)
+                s2.assume(Contains(sq, r))
+                out.append((s2, ex.wrap_elem(r, ex.list_elem_ty(pos[0]), s2)))
+        return out
+    if attr == "server_priority_function":
+        ex.assumed_used.add("server_priority_function is a pure function returning a number")
+        a = ex.as_ref(pos[0], st, node)
+        b = ex.as_ref(pos[1], st, node)
+        v = SPF(fv.t, a.t, b.t)
+        st.assume(smt.isfin(v))
+        return [(st, SV("val", v, T("num")))]
+    if isinstance(f, ast.Subscript) and isinstance(f.value, ast.Attribute) and f.value.attr == "baulking_functions":
+        ex.assumed_used.add("baulking functions are pure functions of the population returning a number")
+        n = ex.as_int(pos[0], st, node)
+        v = BaulkP(fv.t, n)
+        st.assume(smt.isfin(v))
+        return [(st, SV("val", v, T("num")))]
+    raise Unsupported("call through function value " + ast.dump(f)[:60], node)
 
 
 def declare(spec):
     spec.externals["random.random"] = ext_random
     spec.externals["random"] = ext_random
-    TRUSTED.append("random.random() returns a float r with 0 <= r < 1 and touches only the random stream")
+    spec.externals["$fnvalue"] = fnvalue
+    TRUSTED.extend([
+        "random.random() returns a float r with 0 <= r < 1 and touches only the random stream",
+        "user-supplied callables (custom service discipline, server_priority_function, baulking functions, "
+        "custom Distribution.sample) are total, return a value of the documented kind and write nothing in the simulation",
+    ])
